@@ -184,6 +184,14 @@ Theorem C03_complete_partial : forall D (deqb : D -> D -> bool),
 Proof. exact complete. Qed.
 Print Assumptions C03_complete_partial.
 
+(** ... and some outcome always exists (unconditionally), so the statements about
+    "every outcome" are not vacuous *)
+Theorem C03_outcomes_nonempty : forall D (deqb : D -> D -> bool) (pcr_init : Z -> D)
+    (extend : D -> D -> D) (pcr0data : Z -> Z -> D) st (log : list (meas D)) (target : D) cf,
+  exists o, In o (outcomes D deqb pcr_init extend pcr0data st log target cf).
+Proof. exact outcomes_nonempty. Qed.
+Print Assumptions C03_outcomes_nonempty.
+
 (** finding C03-resultch-deadlock: PCR0_DATA + 7 identical measurements, one of
     them dropped, GOMAXPROCS = 5: seven goroutines succeed, resultCh has room for
     six, wg.Wait() never returns *)
